@@ -97,6 +97,18 @@ def run(ctx):
     if rp:
         vf.check_field_source(ctx, R3, rp, dest=(c.LW + "slate::Slate", "amount"), src_field=(c.LW + "types::Context", "amount"), what="slate.amount := context.amount")
         vf.check_field_source(ctx, R3, rp, dest=(c.LW + "slate::Slate", "fee_fields"), src_field=(c.LW + "types::Context", "fee"), what="slate.fee_fields := context.fee (update_fee)")
+        # ... unconditionally: every Ok return of repopulate_tx passed the amount assignment, and (under update_fee) the fee one
+        from .shared import amount_restored
+        amount_restored(ctx, R3)
+        ufp = c.param(rp, "update_fee", "bool")
+        if ufp is not None:
+            gf = cfg.local_guard(rp, ufp)
+            fasg = vf.field_assignments(rp, c.LW + "slate::Slate", "fee_fields")
+            fe = {(b, x) for b, _s in fasg for x in rp.succ(b)}
+            h = bool(fe) and bool(gf.fail) and cfg.must_pass(rp, fe | gf.fail, cfg.return_blocks(rp), cut_nodes=cfg.error_return_blocks(rp))[0]
+            run.instance(R3, {"fn": "repopulate_tx", "obligation": "with update_fee the fee fields are restored from the context on every path to Ok"}, held=h)
+            if not h:
+                run.finding(Finding(R3, rp.id, "repopulate_tx(update_fee = true) can return Ok without restoring slate.fee_fields from the context", site=rp.loc()))
         # parts (inputs/outputs) derive from context.get_inputs/get_outputs only
         for getter in ("get_inputs", "get_outputs"):
             n = len(cfg.find_calls(rp, c.LW + "types::Context::" + getter))
@@ -167,6 +179,44 @@ def run(ctx):
             if not h:
                 run.finding(Finding(R5, fz, "a different context object is saved after late selection", site=fzf.loc()))
 
+    R6 = "C02.R6"
+    run.rule(R6, "minimum-fee check: check_fees refuses exactly when the minimum fee for the transaction's weight exceeds the fee it pays", floor=2)
+    cf = ctx.fn(SLATE + "check_fees")
+    if cf:
+        is_min = lambda pr: any(x[0] == "call" and x[1] == "grin_core::libtx::tx_fee" for x in pr)
+        is_paid = lambda pr: any(x[0] == "call" and x[1].endswith("Transaction::fee") for x in pr) and not is_min(pr)
+        found = []
+        for x in cfg.comparisons(cf):
+            pl, pr = vf.producers(cf, x.l), vf.producers(cf, x.r)
+            if is_min(pl) and is_paid(pr):
+                found.append((x, x.op))
+            elif is_min(pr) and is_paid(pl):
+                found.append((x, cfg._SWAP[x.op]))
+        if len(found) != 1:
+            run.error("C02.R6: comparison of tx_fee(..) with Transaction::fee() not found in check_fees (%d)" % len(found))
+        else:
+            x, op = found[0]   # op relates  minimum  OP  paid
+            refuse = x.true_edges if op == "Gt" else (x.false_edges if op == "Le" else None)
+            held = refuse is not None
+            if held:
+                # on the refusing edge only an error is returned; Ok needs the other edge
+                par = cfg.reach(cf, starts=[d for (_s, d) in refuse], cut_nodes=cfg.error_return_blocks(cf))
+                held = not any(b in par for b in cfg.return_blocks(cf))
+                accept = x.false_edges if op == "Gt" else x.true_edges
+                held = held and cfg.must_pass(cf, accept, cfg.ok_value_blocks(cf), cut_nodes=cfg.error_return_blocks(cf))[0]
+            run.instance(R6, {"fn": "Slate::check_fees", "obligation": "Err iff tx_fee(inputs, outputs, kernels) > tx.fee()", "operator (minimum OP paid)": op}, held=held)
+            if not held:
+                run.finding(Finding(R6, cf.id, "check_fees does not refuse a transaction paying less than the minimum fee for its weight (comparison: minimum %s paid)" % op, site=x.site()))
+            # the minimum is computed from this transaction's own input / output / kernel counts
+            for b, t in cfg.find_calls(cf, "grin_core::libtx::tx_fee"):
+                kinds = []
+                for a in t["a"]:
+                    pr = vf.producers(cf, a) | vf.origins(cf, a)
+                    kinds.append(sorted({x_[1].split("::")[-1] for x_ in pr if x_[0] == "call" and x_[1].split("::")[-1] in ("inputs", "outputs", "kernels")}))
+                h = kinds == [["inputs"], ["outputs"], ["kernels"]]
+                run.instance(R6, {"fn": "Slate::check_fees", "obligation": "minimum fee from tx.inputs().len(), tx.outputs().len(), tx.kernels().len()", "args": kinds}, held=h)
+                if not h:
+                    run.finding(Finding(R6, cf.id, "the minimum fee is not computed from the transaction's own input/output/kernel counts", site=c.site_of(cf, b), detail=str(kinds)))
     run.not_decided += [
         "consensus validity of the produced transaction as such (cryptographic/numeric)",
         "that an altered reply is detected by the signature arithmetic (relies on verify_* semantics)",
